@@ -199,6 +199,8 @@ class Interp:
         return bool(cond)
 
     def truth(self, v):
+        if hasattr(v, 'py_truth'):
+            return v.py_truth()
         if isinstance(v, (MList,)):
             return v.seq.length > 0
         if isinstance(v, (FuncRef, ClassRef, ModuleRef, Model, ExcVal)):
@@ -560,7 +562,7 @@ class Interp:
                 # UNINTERPRETED rounding function fl (A2'): equalities that
                 # hold only in exact arithmetic are not provable
                 x, y = TReal.unwrap(a), TReal.unwrap(b)
-                fl = S.fl
+                fl = S.fl if not self.spec else (lambda t: t)
                 if op == 'Add':
                     return SReal(fl(x + y))
                 if op == 'Sub':
